@@ -12,7 +12,8 @@ from ..model import AnalysisError
 from ..pyeval import Interp, Obj, Model, Unsupported, Raised, pure_os
 
 GT = 'tdda.referencetest.gentest.'
-TMP = '/tmp/tmpGEN'
+TMP = '/tmp/tmpGEN'        # gentest's temporary directory while the test is generated
+TMP_RUN = '/tmp/tmpRUN'    # the fresh one the generated test makes when it runs
 CWD = '/w/job'
 
 
@@ -66,7 +67,7 @@ SCENARIOS = []
 
 def _scenario(name, **kw):
     d = dict(name=name, command='echo hello', raw_script='test_cmd.py', files=[], check_stdout=True, check_stderr=True,
-             exit_code=0, exclusions={}, ref_map={}, zec=True, iterations=2)
+             exit_code=0, exclusions={}, ref_map={}, zec=True, iterations=2, tmpdir_used=False)
     d.update(kw)
     SCENARIOS.append(d)
 
@@ -77,7 +78,8 @@ _scenario('no-stdout', check_stdout=False)
 _scenario('no-stderr', check_stderr=False)
 _scenario('no-streams', check_stdout=False, check_stderr=False, files=[(CWD + '/out.txt', 'text', None)])
 _scenario('exit-3', exit_code=3, zec=False)
-_scenario('one-iteration', iterations=1, files=[(CWD + '/sub/out.dat', 'text', 'ascii'), (CWD + '/plot.png', 'binary', None)])
+_scenario('one-iteration', iterations=1, files=[(CWD + '/sub/out.dat', 'text', 'ascii'), (CWD + '/plot.png', 'binary', None),
+                                              (TMP + '/made/in tmp.txt', 'text', 'ascii')])
 _scenario('script-name-awkward', raw_script='test_my-cmd.v2 (new).py')
 _scenario('script-name-unicode', raw_script='test_ünï.py')
 _scenario('script-in-subdir', raw_script='sub/dir/test_x.py')
@@ -86,7 +88,8 @@ _scenario('files', files=[(CWD + '/out.txt', 'text', None), (CWD + '/sub dir/it\
                           (TMP + '/scratch/tmp out.txt', 'text', None), (CWD + '/2nd-file.txt', 'text', None)])
 _scenario('files-same-name', files=[(CWD + '/out.txt', 'text', None), ('/other/out.txt', 'text', None), (CWD + '/a/out_txt', 'text', None)],
           ref_map={'/other/out.txt': CWD + '/ref/cmd/out.txt1'})
-_scenario('exclusions', files=[(CWD + '/log.txt', 'text', None)],
+_scenario('exclusions', files=[(CWD + '/log.txt', 'text', None)], tmpdir_used=True,   # a line naming the temporary directory was seen
+         
           exclusions={'STDOUT': (['^took \\d+\\.\\d+s$', '^it\'s "quoted" \\[x\\]$', '^both \'\'\' and """ here$'],
                                  ['removed line\n', 'trailing backslash\\', 'quote \' " \'\'\' """', 'café\n'],
                                  ['myhost', 'o\'brien', TMP, '/w/job']),
@@ -131,7 +134,7 @@ def generate(p, sc):
     for path, kind, enc in (sc['files'] if sc['iterations'] > 1 else ()):     # with one run nothing has been classified yet
         short = posixpath.basename(sc['ref_map'].get(path, path))
         filetypes[short] = _FT(kind == 'text', enc)
-    g.attrs.update(cwd=CWD, tmp_dir_shell_var='TMPDIR', tmpdir=TMP, tmpdir_used=False, command=sc['command'], raw_script=sc['raw_script'],
+    g.attrs.update(cwd=CWD, tmp_dir_shell_var='TMPDIR', tmpdir=TMP, tmpdir_used=sc['tmpdir_used'], command=sc['command'], raw_script=sc['raw_script'],
                    script=script, raw_files=[posixpath.relpath(x, CWD) if x.startswith(CWD + '/') else x for x in paths], verbose=False,
                    reference_files={1: list(paths), 2: list(paths)}, check_stdout=sc['check_stdout'], check_stderr=sc['check_stderr'],
                    no_clobber=False, require_zero_exit_code=sc['zec'], relative_paths=False, iterations=sc['iterations'], warnings=[], refdir=refdir,
@@ -187,6 +190,14 @@ def read_back(text):
             if b.name in out['tests']:
                 raise ValueError('test %s is defined twice' % b.name)
             out['tests'][b.name] = b
+    out['bound'] = {t.id for n in ast.walk(c) if isinstance(n, ast.Assign) for t in n.targets if isinstance(t, ast.Name)}
+    out['bound'] |= {x.attr for n in ast.walk(c) for x in ast.walk(n) if isinstance(x, ast.Attribute) and isinstance(x.ctx, ast.Store)
+                     and isinstance(x.value, ast.Name) and x.value.id in ('self', 'cls')}
+    calls = {id(n.func) for n in ast.walk(c) if isinstance(n, ast.Call)}
+    out['read'] = {x.attr for x in ast.walk(c) if isinstance(x, ast.Attribute) and isinstance(x.ctx, ast.Load) and id(x) not in calls
+                   and isinstance(x.value, ast.Name) and x.value.id in ('self', 'cls')}
+    out['read'] |= {x.id for b in c.body if not isinstance(b, ast.FunctionDef) for x in ast.walk(b)
+                    if isinstance(x, ast.Name) and isinstance(x.ctx, ast.Load) and x.id in ('cwd', 'refdir', 'tmpdir', 'orig_tmpdir')}
     out['stray'] = [ast.unparse(n)[:60] for i, n in enumerate(tree.body)
                     if not (isinstance(n, (ast.Import, ast.ImportFrom, ast.ClassDef)) or (i == 0 and isinstance(n, ast.Expr) and isinstance(n.value, ast.Constant))
                             or (isinstance(n, ast.If) and ast.unparse(n.test).replace('"', "'") == "__name__ == '__main__'"))]
@@ -266,11 +277,16 @@ def run_rule(run, p, pid):
                 problems.append('statements outside the class that the boilerplate does not hold: %s' % rb['stray'][:2])
             if not rb['main']:
                 problems.append('the script no longer ends by running its tests')
+            unset = sorted(rb['read'] - rb['bound'])
+            if unset:
+                problems.append('the class reads %s, which it never sets: NameError / AttributeError when the test runs' % ', '.join(unset))
             run.ob(rid, key + ':header', not problems, 'scenario %s: %s' % (sc['name'], '; '.join(problems) or 'docstring and command read back intact'),
                    fn=ws)
             continue
         # ---- C12: what the script tests
-        env = {'cwd': CWD, 'tmpdir': TMP}
+        env = {'cwd': CWD}
+        if 'tmpdir' in rb['bound']:
+            env['tmpdir'] = TMP_RUN       # the class makes a fresh temporary directory: files the command writes there are there
         problems = []
         try:
             env['refdir'] = _denote(rb['assign']['refdir'], env)
@@ -285,6 +301,8 @@ def run_rule(run, p, pid):
             expect['self.error'] = ('stderr', 'self.assertStringCorrect', refdir + '/STDERR', 'STDERR', None)
         for path, kind, enc in sc['files']:
             ref = sc['ref_map'].get(path, refdir + '/' + posixpath.basename(path))
+            if path.startswith(TMP + '/'):
+                path = TMP_RUN + path[len(TMP):]          # where the re-run command will write it
             expect[path] = ('file:' + path, 'self.assertTextFileCorrect' if kind == 'text' else 'self.assertBinaryFileCorrect', ref,
                             posixpath.basename(ref), enc if kind == 'text' else None)
         found = {}
